@@ -30,6 +30,7 @@ declare -A MAP=(
  ["concatenated into a network output"]="C08"
  ["meets the requested counts"]="C20"
  ["leave the sampled coefficients in place"]="C18"
+ ["at every call site of a layer invoked multiple times"]="C07"
 )
 fail=0
 git -C /repo log --format='%h %s' bfd6014..HEAD | grep ' fix:' | while read h msg; do
